@@ -31,7 +31,7 @@ def F(x):
 
 
 INPUTS = [["n"], ["b", True], ["b", False], ["i", "0"], ["i", "-1"], ["i", "7"], ["i", str(I64MIN)], ["i", str(I64MAX)], F(2.5), F(0.5), F(-1.5), F(1e300),
-          ["s", ""], ["s", "  "], ["s", "abc def"], ["s", "héllo wörld"], ["s", "é́x"], ["s", "12"], ["s", "3.5"], ["s", "<a href='x'>&amp;</a>"], ["s", "%41+%zz%c3%a9"],
+          ["s", ""], ["s", "  "], ["s", "abc def"], ["s", "héllo wörld"], ["s", "é́x"], ["s", "12"], ["s", "3.5"], ["s", "<a href='x'>&amp;</a>"], ["s", "%41+%zz%c3%a9"], ["s", "caf%FF"], ["s", "%C3"],
           ["a", []], ["a", [["i", "3"], ["s", "a"], ["n"], F(1.5), ["b", True]]], ["a", [["a", [["i", "1"], ["i", "2"]]], ["a", [["i", "3"]]]]],
           ["a", [["i", str(i % 7)] for i in range(40)]], ["a", [["o", [["a", ["i", "2"]]]], ["o", [["a", ["i", "1"]]]], ["o", [["b", ["s", "x"]]]]]],
           ["o", []], ["o", [["a", ["i", "1"]]]], ["o", [["a", ["o", [["b", ["a", [["i", "1"]]]]]]]]]]
@@ -44,11 +44,13 @@ STD = {"abs": (0, 0), "append": (1, 1), "at_least": (1, 1), "at_most": (1, 1), "
        "divided_by": (1, 1), "downcase": (0, 0), "escape": (0, 0), "escape_once": (0, 0), "first": (0, 0), "floor": (0, 0), "join": (0, 1), "last": (0, 0), "lstrip": (0, 0), "map": (1, 1),
        "minus": (1, 1), "modulo": (1, 1), "newline_to_br": (0, 0), "plus": (1, 1), "prepend": (1, 1), "remove": (1, 1), "remove_first": (1, 1), "replace": (1, 2), "replace_first": (1, 2),
        "reverse": (0, 0), "round": (0, 1), "rstrip": (0, 0), "size": (0, 0), "slice": (1, 2), "sort": (0, 1), "sort_natural": (0, 1), "split": (1, 1), "strip": (0, 0), "strip_html": (0, 0),
-       "strip_newlines": (0, 0), "times": (1, 1), "truncate": (0, 2), "truncatewords": (0, 2), "uniq": (0, 0), "upcase": (0, 0), "url_decode": (0, 0), "url_encode": (0, 0), "where": (1, 2)}
-EXTRA = {"date": (1, 1), "push": (1, 1), "pop": (0, 0), "shift": (0, 0), "unshift": (1, 1), "array_to_sentence_string": (0, 1), "slugify": (0, 1), "pluralize": (2, 2), "date_in_tz": (2, 2), "sort": (0, 1)}
+       "strip_newlines": (0, 0), "times": (1, 1), "truncate": (0, 2), "truncatewords": (0, 2), "uniq": (0, 0), "upcase": (0, 0), "url_decode": (0, 0), "url_encode": (0, 0), "where": (1, 2), "date": (1, 1)}
+EXTRA = {"push": (1, 1), "pop": (0, 0), "shift": (0, 0), "unshift": (1, 1), "array_to_sentence_string": (0, 1), "slugify": (0, 1), "pluralize": (2, 2), "date_in_tz": (2, 2), "sort": (0, 1)}
 
 
 def filt_ctor(name):
+    if name == "date":
+        return C("FD")
     if name in tpl.MATH:
         return C("FM", C(tpl.MATH[name]))
     if name in tpl.HTML:
@@ -58,6 +60,9 @@ def filt_ctor(name):
 
 # ------------------------------------------------------------------ suite F: filters
 PARSE = {}
+DATES = {}      # text -> ['dt', text, y, mo, d, h, mi, s, ns, off] | None : DateTime::from_str as the implementation answers it
+DATE_INPUTS = [["s", "2016-02-16 10:00:00 +0100"], ["s", "2024-02-29 23:59:59.25 -0330"], ["s", "13 Jun 2016 02:30:00 +0300"], ["s", "1700000000"], ["s", "2016-02-16"], ["dt", "1999-12-31 23:59:59 +1400", 1999, 12, 31, 23, 59, 59, 0, 50400]]
+DATE_ARGS = [["s", "%Y-%m-%d %H:%M:%S %z"], ["s", "%a %b %e %j %U %G-%V %s %L"], ["s", "%-d %^B %10Y %é %"], ["s", "%Q %:z %::z %E"], ["s", "é%%é"]]
 
 
 def f_gen(tier, seed):
@@ -82,8 +87,8 @@ def f_gen(tier, seed):
                 else:
                     combos = [[args[2], args[13], args[3]]]
                 wrong = n < lo or n > hi
-                for x in ins:
-                    cs = combos
+                for x in (ins + DATE_INPUTS if f == "date" else ins):
+                    cs = combos + [[a] for a in DATE_ARGS] if (f == "date" and n == 1) else combos
                     if wrong:
                         cs = combos[:2]
                     elif n == 2 and tier == "quick":
@@ -114,6 +119,12 @@ def f_prepare(cases, run):
         r = run([{"id": 0, "kind": "oracle", "parse": ss, "show": [], "chars": "", "graphemes": []}])[0]
         for s, b in zip(ss, r["parse"]):
             PARSE[s] = b
+    # DateTime::from_str of every string the date filter may see ("now"/"today" read the clock: never generated)
+    ds = sorted({c["x"][1] for c in cases if f_in_model(c) and c["f"] == "date" and c["x"][0] == "s"} - set(DATES))
+    if ds:
+        rr = run([{"id": i, "kind": "dateparse", "text": t} for i, t in enumerate(ds)])
+        for i, t in enumerate(ds):
+            DATES[t] = rr[i]["dt"]
     # graphemes of every string a truncate may see
     gs = sorted({sc.show_value(c["x"]) for c in cases if f_in_model(c) and c["f"] == "truncate"} - set(sc.ORACLE["graphemes"]))
     if gs:
@@ -155,7 +166,11 @@ def f_case_ir(c, resp):
     graphs = [P(S(s), [S(g) for g in sc.ORACLE["graphemes"][s]]) for s in gkeys if s in sc.ORACLE["graphemes"] and sc.ORACLE["graphemes"][s] != list(s)]
     shows = [P(float_ir(b), S(sc.ORACLE["show"][b])) for b in sorted(set(fs)) if b in sc.ORACLE["show"]]
     parses = [P(S(s), Opt(float_ir, PARSE[s])) for s in sorted(set(ss)) if s in PARSE]
-    return R("mkF", filt_ctor(c["f"]), val_ir(c["x"]), [val_ir(a) for a in c["args"]], shows, parses, ups, los, graphs, exp)
+    dates = []
+    if c["f"] == "date" and c["x"][0] == "s" and c["x"][1] in DATES:
+        j = DATES[c["x"][1]]
+        dates = [P(S(c["x"][1]), None if j is None else ("some", lv.scalar_ir(j)[2][0]))]
+    return R("mkF", filt_ctor(c["f"]), val_ir(c["x"]), [val_ir(a) for a in c["args"]], shows, parses, ups, los, graphs, dates, exp)
 
 
 def comparable_for_sort(c):
